@@ -4,6 +4,7 @@ import (
 	"fmt"
 	"runtime"
 	"sync"
+	"sync/atomic"
 	"time"
 
 	"verifh/engine"
@@ -101,5 +102,79 @@ func concCase(k *engine.Case) {
 	u.tally["conc_conversions"] += int64(workers * rounds * 6 * 4)
 	if bad > 0 {
 		u.fail("concurrent-conversion", "%d of %d goroutines converting their own ids got another answer than the same call gives alone; first: %s", bad, workers, first)
+	}
+}
+
+var coldStartDone atomic.Bool
+
+// coldStartCase is the first kind: its first case in every child process makes that process's
+// first calls of the codec, from several goroutines at the same instant (whatever is set up
+// lazily on first use must be ready for every caller); later cases repeat the burst warm.
+func coldStartCase(k *engine.Case) {
+	u, done := start(k)
+	defer done()
+	if u == nil {
+		return
+	}
+	cold := coldStartDone.CompareAndSwap(false, true)
+	if cold {
+		u.tally["cold_start_bursts_in_fresh_process"]++
+	} else {
+		u.tally["cold_start_bursts_in_warm_process"]++
+	}
+	const g = 12
+	ids := make([][]int64, g)
+	for w := range ids {
+		for i := 0; i < 4; i++ {
+			id, _, _ := u.genID("cold")
+			ids[w] = append(ids[w], id)
+		}
+	}
+	k.Logf("first use of the codec in this process: %v; %d goroutines at once", cold, g)
+	k.Nontrivial()
+	old := runtime.GOMAXPROCS(16)
+	defer runtime.GOMAXPROCS(old)
+	type res struct {
+		id   int64
+		s    string
+		back int64
+		err  error
+		p    any
+	}
+	out := make([][]res, g)
+	var ready atomic.Int32
+	var wg sync.WaitGroup
+	for w := 0; w < g; w++ {
+		w := w
+		wg.Add(1)
+		go func() {
+			defer wg.Done()
+			ready.Add(1)
+			for ready.Load() < g { // spin: all start within the same microsecond
+			}
+			for _, id := range ids[w] {
+				x := res{id: id}
+				func() {
+					defer func() { x.p = recover() }()
+					x.s = snowflake.CnStyle(id)
+					x.back, x.err = snowflake.FromChStyle(x.s)
+				}()
+				out[w] = append(out[w], x)
+			}
+		}()
+	}
+	wg.Wait()
+	for _, rs := range out {
+		for _, x := range rs {
+			k.Evals(1)
+			switch {
+			case x.p != nil:
+				u.fail("panic", "CnStyle / FromChStyle of id %d panicked in a burst of first calls: %v", x.id, x.p)
+			case len(x.s) != 24:
+				u.fail("datestr-length", "CnStyle(%d) = %q has %d characters, not 24 (burst of first calls: %v)", x.id, x.s, len(x.s), cold)
+			case x.err != nil || x.back != x.id:
+				u.fail("datestr-roundtrip-mismatch", "id %d prints as %q and parses back to (%d, %v) (burst of first calls: %v)", x.id, x.s, x.back, x.err, cold)
+			}
+		}
 	}
 }
